@@ -50,7 +50,7 @@ def _replay(ctx, module, cfg, fname, syms, workers, kind):
     ctx.log("%s/%s: %d cases from TLC, %d executions on pycoin, %d disagreements" % (module, cfg, rp.records, rp.executed, len(fails)))
     if rp.records == 0:
         raise MachineryError("%s/%s printed no case" % (module, cfg))
-    if kind == "tx" and seen != {(m, b) for m in ("wire", "noseg", "ext") for b in (False, True)}:
+    if kind == "tx" and seen != {(m, b) for m in ("wire", "noseg", "ext", "ltcmweb") for b in (False, True)}:
         raise MachineryError("vacuous replay: (mode, BIP144) classes seen: %s" % sorted(seen))
     ctx.replayed += rp.records
     ctx.case(None, rp.executed)
@@ -171,6 +171,17 @@ def _record_one(rnd, sym, p, t):
     ev["w_hash"] = tx.w_hash()
     ev["id"] = tx.id()
     ev["w_id"] = tx.w_id()
+    if sym == "LTC" and rnd.random() < 0.3:
+        # Litecoin's MWEB-flagged form: pycoin cannot write it; derive it from the standard bytes (flag bit 3 set,
+        # MWEB byte 0 before the lock time).  Trace_TxWire checks that the result is WireLTC(tx, TRUE).
+        if b != ev["stripped"]:
+            inp = b[:5] + bytes([b[5] | 8]) + b[6:-4] + b"\x00" + b[-4:]
+        else:
+            inp = b[:4] + b"\x00\x08" + b[4:-4] + b"\x00" + b[-4:]
+        t2 = Tx.from_bin(inp) if t % 2 else Tx.parse(io.BytesIO(inp))
+        ev.update(kind="ltc", us=None, input=inp, allow=True, parsed=D.project_tx(t2), punspents=D.project_unspents(t2),
+                  reser=t2.as_bin())
+        return ev
     # the unspents extension on some
     us = None
     if rnd.random() < 0.4:
@@ -196,11 +207,13 @@ def _record_one(rnd, sym, p, t):
 
 
 def _trace_json(ev):
+    if ev.get("kind") == "ltcreal":
+        return {"kind": "ltcreal", "input": D.rle(ev["input"]), "allow": True, "parsed": _abs_to_json(ev["parsed"])}
     pu = []
     for u in ev["punspents"]:
         pu.append({"none": True, "amount": [0, 0, 0, 0], "script": []} if u is None
                   else {"none": False, "amount": D.limbs(u[0], 4), "script": D.rle(u[1])})
-    return {"kind": "codec", "tx": _abs_to_json(ev["tx"]), "bytes": D.rle(ev["bytes"]), "stripped": D.rle(ev["stripped"]),
+    return {"kind": ev.get("kind", "codec"), "tx": _abs_to_json(ev["tx"]), "bytes": D.rle(ev["bytes"]), "stripped": D.rle(ev["stripped"]),
             "us": [] if ev["us"] is None else [{"amount": D.limbs(a, 4), "script": D.rle(s)} for a, s in ev["us"]],
             "hasus": ev["us"] is not None,
             "input": D.rle(ev["input"]), "allow": ev["allow"],
@@ -399,6 +412,29 @@ def _ground_truth(ctx):
         raise MachineryError("known-id transaction not found in tests/tx_test.py")
 
 
+def _real_ltc_block():
+    """the transactions of the Litecoin MWEB block in pycoin's test-suite, delimited and parsed by pycoin's own
+    block parser (offsets are pycoin's: include_offsets); -> events, crashes"""
+    import io
+    src = open(os.path.join(REPO, "tests/litecoin_mweb_test.py")).read()
+    m = re.search(r"BLOCK_BLOB = h2b\(((?:\s*\"[0-9a-f]+\"\s*)+)\)", src)
+    if not m:
+        raise MachineryError("Litecoin block not found in tests/litecoin_mweb_test.py")
+    blob = bytes.fromhex("".join(re.findall(r"\"([0-9a-f]+)\"", m.group(1))))
+    net = D.network("LTC")
+    try:
+        f = io.BytesIO(blob)
+        blk = net.block.parse(f, include_offsets=True, check_merkle_hash=False)
+        end = f.tell()
+        offs = [t.offset_in_block for t in blk.txs] + [end]
+        return [{"kind": "ltcreal", "sym": "LTC", "tx": D.project_tx(t), "parsed": D.project_tx(t), "us": None, "allow": True,
+                 "input": blob[a:b], "bytes": blob[a:b], "stripped": t.as_bin(include_witness_data=False),
+                 "hash": t.hash(), "id": t.id(), "w_hash": None}
+                for t, a, b in zip(blk.txs, offs, offs[1:])], []
+    except Exception as e:
+        return [], [("LTC", ((), (), (), 0), type(e).__name__, "real Litecoin block: " + repr(e)[:200])]
+
+
 def _traces(ctx):
     q = ctx.quick
     n = 400 if q else 2500
@@ -409,6 +445,9 @@ def _traces(ctx):
         e, c = record_traces(seed, cnt, big)
         evs += e
         crashes += c
+    e, c = _real_ltc_block()
+    evs += e
+    crashes += c
     for sym, p, exc, info in crashes:
         ctx.case(None, 1)
         ctx.fail("C07|trace|%s|exc=%s|%s" % (sym, exc, D.tx_class(p, "trace", any(i[4] for i in p[1]))),
@@ -423,7 +462,7 @@ def _traces(ctx):
         ctx.case(None, b - a)
         for i in sorted(rej):
             e = evs[a + i]
-            ctx.fail("C07|trace|%s|rejected|%s" % (e["sym"], D.tx_class(e["tx"], "ext" if e["us"] is not None else "wire" if e["allow"] else "noseg", e["bytes"] != e["stripped"])),
+            ctx.fail("C07|trace|%s|rejected|%s" % (e["sym"], D.tx_class(e["tx"], e["kind"] if e.get("kind") else "ext" if e["us"] is not None else "wire" if e["allow"] else "noseg", e["bytes"] != e["stripped"])),
                      "recorded pycoin run is not a behaviour of TxWire/TxParse: %s" % D._short(e["tx"]),
                      {"event": {k: D._short(v) for k, v in e.items()}})
         for i in range(b - a):
@@ -435,13 +474,15 @@ def _traces(ctx):
                 raise MachineryError("trace spec printed no id terms for accepted trace %d" % (a + i))
             h, wh = D.eval_term(t["txid"]), D.eval_term(t["wtxid"])
             cls = D.tx_class(e["tx"], "trace", e["bytes"] != e["stripped"])
+            if e["w_hash"] is None:
+                wh = None          # a real Litecoin transaction: only the id is compared (the MWEB marker is not kept)
             if e["hash"] != h or e["id"] != h[::-1].hex():
                 ctx.fail("C07|trace|%s|hash|%s|not-h256d-of-stripped" % (e["sym"], cls), "id differs from the spec's TxId term", {"event": {k: D._short(v) for k, v in e.items()}})
-            if e["w_hash"] != wh or e["w_id"] != wh[::-1].hex():
+            if wh is not None and (e["w_hash"] != wh or e["w_id"] != wh[::-1].hex()):
                 ctx.fail("C07|trace|%s|w_hash|%s|not-h256d-of-wire" % (e["sym"], cls), "w_id differs from the spec's WTxId term", {"event": {k: D._short(v) for k, v in e.items()}})
     ctx.sample({"trace": {k: D._short(v) for k, v in evs[0].items()}})
     # binding self-test: corrupt one logged field / one byte
-    good = [i for i, e in enumerate(evs[:60]) if e["us"] is None and e["allow"] and len(e["tx"][2]) >= 1]
+    good = [i for i, e in enumerate(evs[:200]) if e.get("kind") is None and e["us"] is None and e["allow"] and len(e["tx"][2]) >= 1]
     g = tj[good[0]]
     bad1 = copy.deepcopy(g)
     bad1["parsed"]["outs"][0]["amount"][0] ^= 1
@@ -450,8 +491,21 @@ def _traces(ctx):
     runs[-1] = [runs[-1][0] ^ 1, runs[-1][1]] if len(runs) < 2 or runs[-2][0] != runs[-1][0] ^ 1 else [runs[-1][0] ^ 2, runs[-1][1]]
     bad3 = copy.deepcopy(g)
     bad3["tx"]["ins"][0]["seq"][1] ^= 1
-    rej, _ = validate_traces(ctx, [g, bad1, bad2, bad3], quiet=True)
-    _selftest(ctx, "trace_rejects_corrupted_field", rej == {1, 2, 3})
+    # ... and of a Litecoin MWEB trace: a witness item parsed differently; the MWEB byte in the wrong place
+    lg = [i for i, e in enumerate(evs) if e.get("kind") == "ltc" and any(x[4] for x in e["tx"][1])]
+    extra = []
+    if lg:
+        g2 = tj[lg[0]]
+        bad4 = copy.deepcopy(g2)
+        k = [j for j, x in enumerate(bad4["parsed"]["ins"]) if x["wit"]][0]
+        bad4["parsed"]["ins"][k]["wit"] = bad4["parsed"]["ins"][k]["wit"][:-1]
+        bad5 = copy.deepcopy(g2)
+        raw = D.unrle(g2["input"])
+        nstr = len(evs[lg[0]]["stripped"])
+        bad5["input"] = D.rle(raw[:nstr + 2 - 4] + b"\x00" + raw[nstr + 2 - 4:-5] + raw[-4:])   # MWEB byte before the witness stacks
+        extra = [g2, bad4, bad5]
+    rej, _ = validate_traces(ctx, [g, bad1, bad2, bad3] + extra, quiet=True)
+    _selftest(ctx, "trace_rejects_corrupted_field", rej == ({1, 2, 3} | ({5, 6} if extra else set())))
 
 
 def _selftest(ctx, name, ok):
